@@ -57,6 +57,12 @@ CHECKS = {
             "All listed constraint violations x 4 valid bases must be rejected by the constructor with zero likelihood/prior calls; every row of a strength-2 (quick) / strength-3 (thorough) covering array over 14 constructor options "
             "(incl. pool in {None,1,2,object}, save_every on an in-memory file system, cluster cadence and caps) must construct, run to completion and satisfy the run post-conditions.",
             "Trusted: covering-array generator (its tuple coverage is measured and reported). Higher-order interactions than the stated strength are not covered.", "DESIGN.md §4 C18"),
+    "C19": ("exploration",
+            "exhaustive enumeration of a deterministic data lattice x transformation-group lattice (scalings, translations, all coordinate permutations) with the untransformed fit as reference",
+            "Every data set of a deterministic lattice (d in 1..8, n in 4d..2000, Gaussian / t_1,2,5,30 / skewed / contaminated quantile grids, three correlations) is fitted by the real fit_mvstud and checked for a finite "
+            "in-box location, symmetric positive-definite scale and nu in (0,inf]; each is refitted under every transformation of the group lattice and compared with the transformed reference fit; large t-grids must recover "
+            "(location, scale, nu); non-finite nu must be replaced by the fallback in ModeStatistics and never reach the kernel.",
+            "Trusted: scipy quantile functions used to build the grids. Tolerance 1e-4 relative for equivariance; recovery of nu accepted in either nu or 1/nu metric (nearly Gaussian tails are weakly identified).", "DESIGN.md §4 C19"),
     "C20": ("exploration",
             "exhaustive enumeration of all weight vectors over a dynamic-range alphabet (length<=5) and structured long vectors against rational references; affine-map lattice for the volume metric",
             "All 37k weight vectors over {0,1e-300,1e-12,1e-3,1,3,1e8,1e300} of length 1-5 (plus long uniform/geometric/dominant/tempering/tied vectors up to 1e4) are checked for ESS in [1,N], exact value, scale and permutation invariance; "
